@@ -70,6 +70,8 @@ struct Spec {
     n_private: usize,
     n_variants: usize,
     n_consts: usize,
+    n_chains: usize,
+    n_crowd: usize,
     noise: bool,
 }
 
@@ -83,9 +85,9 @@ fn spec_strategy() -> impl Strategy<Value = Spec> {
         3usize..=7,
         3usize..=5,
         3usize..=5,
-        (4usize..=6, 3usize..=5, any::<bool>()),
+        (4usize..=6, 3usize..=5, any::<bool>(), 5usize..=20, 8usize..=12),
     )
-        .prop_map(|(seed, stem, n_crates, n_mods, n_models, n_fields, n_methods, n_private, (n_variants, n_consts, noise))| Spec {
+        .prop_map(|(seed, stem, n_crates, n_mods, n_models, n_fields, n_methods, n_private, (n_variants, n_consts, noise, n_chains, n_crowd))| Spec {
             seed,
             stem,
             n_crates,
@@ -96,6 +98,8 @@ fn spec_strategy() -> impl Strategy<Value = Spec> {
             n_private,
             n_variants,
             n_consts,
+            n_chains,
+            n_crowd,
             noise,
         })
 }
@@ -174,6 +178,109 @@ fn gen_model(rng: &mut Rng, name: &str, n_fields: usize, public: bool, noise: bo
     ModelText { name: name.to_string(), text, ctor: format!("{name}({})", args.join(", ")), first_field: first, n_required }
 }
 
+/// Module-level const graph: `n_chains` independent str-concatenation chains (depth 3..=16, at least half of them
+/// >= 12 deep), int and float arithmetic chains, and frozen list/dict/set consts that refer to other consts; mixed
+/// `pub`. Names carry random words and numbers so that their hash order differs from their declaration order.
+/// Returns (declarations, statements for `main` that use the tips).
+fn gen_const_graph(rng: &mut Rng, tag: &str, n_chains: usize) -> (String, Vec<String>) {
+    let mut out = String::new();
+    let mut uses = Vec::new();
+    let mut int_tips: Vec<String> = Vec::new();
+    let mut str_tips: Vec<String> = Vec::new();
+    for c in 0..n_chains {
+        let w = WORDS[rng.below(WORDS.len())].to_uppercase();
+        let base = format!("S{tag}_{w}{}_{c}", rng.below(90) + 10);
+        let depth = if c % 2 == 0 { 12 + rng.below(5) } else { 3 + rng.below(14) };
+        out.push_str(&format!("const {base}_0: str = \"{}{c}\"\n", w.to_lowercase()));
+        for k in 1..depth {
+            let vis = if rng.below(4) == 0 { "pub " } else { "" };
+            out.push_str(&format!("{vis}const {base}_{k}: str = {base}_{} + \"-{k}\"\n", k - 1));
+        }
+        str_tips.push(format!("{base}_{}", depth - 1));
+        uses.push(format!("println({base}_{} + \"!\")", depth - 1));
+        out.push('\n');
+    }
+    for c in 0..(n_chains / 2).max(3) {
+        let w = WORDS[rng.below(WORDS.len())].to_uppercase();
+        let base = format!("I{tag}_{w}{}_{c}", rng.below(90) + 10);
+        let depth = 3 + rng.below(14);
+        out.push_str(&format!("const {base}_0: int = {}\n", rng.below(50) + 1));
+        for k in 1..depth {
+            let vis = if rng.below(4) == 0 { "pub " } else { "" };
+            let op = ["+", "*", "-"][rng.below(3)];
+            out.push_str(&format!("{vis}const {base}_{k}: int = {base}_{} {op} {}\n", k - 1, 1 + rng.below(3)));
+        }
+        int_tips.push(format!("{base}_{}", depth - 1));
+        uses.push(format!("println({base}_{})", depth - 1));
+        let fbase = format!("F{tag}_{w}{}_{c}", rng.below(90) + 10);
+        let fdepth = 3 + rng.below(8);
+        out.push_str(&format!("const {fbase}_0: float = {}.5\n", rng.below(9)));
+        for k in 1..fdepth {
+            out.push_str(&format!("const {fbase}_{k}: float = {fbase}_{} + 0.25\n", k - 1));
+        }
+        uses.push(format!("println({fbase}_{})", fdepth - 1));
+        out.push('\n');
+    }
+    // frozen collections over other consts
+    for c in 0..(n_chains / 2).max(3) {
+        let a = &int_tips[rng.below(int_tips.len())];
+        let b = &int_tips[rng.below(int_tips.len())];
+        let sa = &str_tips[rng.below(str_tips.len())];
+        let sb = &str_tips[rng.below(str_tips.len())];
+        let vis = if c % 3 == 0 { "pub " } else { "" };
+        out.push_str(&format!("{vis}const LI{tag}_{c}: List[int] = [{a}, {b}, {c}]\n"));
+        out.push_str(&format!("const LS{tag}_{c}: List[str] = [{sa}, {sb}]\n"));
+        out.push_str(&format!("const DI{tag}_{c}: Dict[str, int] = {{\"{}\": {a}, \"{}\": {b}}}\n", WORDS[rng.below(12)], WORDS[12 + rng.below(12)]));
+        out.push_str(&format!("const ST{tag}_{c}: Set[str] = {{\"{}\", \"{}\", \"{}\"}}\n", WORDS[rng.below(8)], WORDS[8 + rng.below(8)], WORDS[16 + rng.below(8)]));
+        uses.push(format!("println(len(LI{tag}_{c}) + len(LS{tag}_{c}) + len(DI{tag}_{c}) + len(ST{tag}_{c}))"));
+    }
+    out.push('\n');
+    (out, uses)
+}
+
+/// "Many of everything keyed by name": >= 8 enums (variant registries), >= 8 classes adopting one trait (trait impl
+/// sets, struct metadata), >= 8 free functions (function registry), >= 8 fixtures, and optionally >= 8 routes.
+fn gen_named_crowd(rng: &mut Rng, tag: &str, n: usize, routes: bool) -> (String, Vec<String>) {
+    let mut out = String::new();
+    let mut uses = Vec::new();
+    let n = n.max(8);
+    let pick = |rng: &mut Rng| format!("{}{}", cap(WORDS[rng.below(WORDS.len())]), rng.below(900) + 100);
+    for i in 0..n {
+        let e = format!("E{tag}{}", pick(rng));
+        out.push_str(&format!("enum {e}_{i}:\n    {}A\n    {}B\n    {}C(int)\n\n", cap(WORDS[i % 24]), cap(WORDS[(i + 7) % 24]), cap(WORDS[(i + 13) % 24])));
+        out.push_str(&format!(
+            "def code_{}_{i}(e: {e}_{i}) -> int:\n    match e:\n        case {e}_{i}.{}A:\n            return 1\n        case {e}_{i}.{}B:\n            return 2\n        case {e}_{i}.{}C(n):\n            return n\n\n",
+            e.to_lowercase(), cap(WORDS[i % 24]), cap(WORDS[(i + 7) % 24]), cap(WORDS[(i + 13) % 24])
+        ));
+        uses.push(format!("println(code_{}_{i}({e}_{i}.{}C({i})))", e.to_lowercase(), cap(WORDS[(i + 13) % 24])));
+    }
+    out.push_str(&format!("trait Tagged{tag}:\n    def tag(self) -> int: ...\n\n"));
+    for i in 0..n {
+        let c = format!("T{tag}{}", pick(rng));
+        out.push_str(&format!("@derive(Debug, Clone)\nclass {c}_{i} with Tagged{tag}:\n    v: int\n    w: str = \"{}\"\n\n    def tag(self) -> int:\n        return self.v + {i}\n\n", WORDS[i % 24]));
+        uses.push(format!("println({c}_{i}(v={i}).tag())"));
+    }
+    for i in 0..n {
+        let f = format!("fn_{}_{}_{i}", tag.to_lowercase(), pick(rng).to_lowercase());
+        out.push_str(&format!("def {f}(a: int, b: int = {i}) -> int:\n    return a + b\n\n"));
+        uses.push(format!("println({f}({i}, {}))", i + 1));
+    }
+    for i in 0..n {
+        out.push_str(&format!("@fixture\ndef fx_{}_{}_{i}() -> int:\n    return {i}\n\n", tag.to_lowercase(), WORDS[rng.below(WORDS.len())]));
+    }
+    if routes {
+        for i in 0..n {
+            let h = format!("h_{}_{}_{i}", tag.to_lowercase(), WORDS[rng.below(WORDS.len())]);
+            if i % 3 == 0 {
+                out.push_str(&format!("@route(\"/{h}/{{name}}\")\nasync def {h}(name: str) -> Response:\n    return Response.ok()\n\n"));
+            } else {
+                out.push_str(&format!("@route(\"/{h}\")\nasync def {h}() -> Response:\n    return Response.ok()\n\n"));
+            }
+        }
+    }
+    (out, uses)
+}
+
 fn render(spec: &Spec) -> Proj {
     let mut rng = Rng(spec.seed ^ 0xC12C12);
     let stems = ["app", "main_prog", "x1", "Tool9", "a_b_c", "svc"];
@@ -239,8 +346,17 @@ fn render(spec: &Spec) -> Proj {
             src.push('\n');
             pubs.push(format!("Dep{mi}Trait"));
         }
-        // public const
-        src.push_str(&format!("pub const LIMIT_{mi}: int = {}\n", 10 + mi));
+        // public const + a const graph of the module's own (dependency modules are emitted by the same emitter)
+        src.push_str(&format!("pub const LIMIT_{mi}: int = {}\n\n", 10 + mi));
+        let (cg, cg_uses) = gen_const_graph(&mut rng, &format!("M{mi}"), 5 + spec.n_chains / 4);
+        src.push_str(&cg);
+        src.push_str(&format!("pub def const_probe_{mi}() -> int:\n"));
+        for u in &cg_uses {
+            src.push_str(&format!("    {u}\n"));
+        }
+        src.push_str("    return 0\n\n");
+        pubs.push(format!("const_probe_{mi}"));
+        dep_calls.push(format!("println(const_probe_{mi}())"));
         files.push((format!("{}.incn", path.join("/")), src));
         let sep = if mi % 2 == 0 { "." } else { "::" };
         main_imports.push_str(&format!("from {} import {}\n", path.join(sep), pubs.join(", ")));
@@ -264,6 +380,11 @@ fn render(spec: &Spec) -> Proj {
         }
     }
     decls.push('\n');
+    let (cg, cg_uses) = gen_const_graph(&mut rng, "E", spec.n_chains.max(5));
+    decls.push_str(&cg);
+    let with_routes = spec.seed % 3 == 0;
+    let (crowd, crowd_uses) = gen_named_crowd(&mut rng, "E", spec.n_crowd, with_routes);
+    decls.push_str(&crowd);
     let mut models = Vec::new();
     for k in 0..spec.n_models.max(3) {
         let mname = format!("{}Rec{k}", cap(WORDS[rng.below(WORDS.len())]));
@@ -321,10 +442,13 @@ fn render(spec: &Spec) -> Proj {
     for c in &dep_calls {
         body.push_str(&format!("    {c}\n"));
     }
+    for c in cg_uses.iter().chain(crowd_uses.iter()) {
+        body.push_str(&format!("    {c}\n"));
+    }
     if spec.noise {
         body.push_str("\n\n\n    x   =   1+2\n    println( x )\n");
     }
-    let header = format!("\"\"\"generated project {stem}\"\"\"\n\n");
+    let header = format!("\"\"\"generated project {stem}\"\"\"\n\n{}", if with_routes { "from web import App, route, Response\n" } else { "" });
     let good = format!("{header}{rust_imports}{main_imports}\n{decls}{body}");
 
     // ---- bad main: >= 3 independent errors per collection-walking diagnostic
